@@ -36,6 +36,7 @@ import (
 //	      panic.  A global var is only the default of a route var WITHOUT inline regex; the static handlers'
 //	      routes all have one ("{file:.+}", "{file:.+\.(?:exts)}"), so the model ignores gvar.
 //	viasym                                    the root of the NEXT mount is handed to rux as a symbolic link to www+target
+//	addmount <kind> <flags> <prefix> <exts> <target>   one more Static* call on the same router (engine_static_multi.go)
 //	grow <files> <dirs>                       further paths appear in the tree, the mount stays (engine_static_root.go:
 //	      roots that are missing at registration, are created later, are (dangling) links)
 //
@@ -276,6 +277,7 @@ func (staticEngine) Run(ops []string) (ans []string, oracle []string) {
 	var fsNames []string
 	var gvars [][2]string // defined by gvar ops, consumed by the next mount
 	var viaSym bool       // set by viasym, consumed by the next mount
+	var mounts []mountCfg // all mounts of the current router (mount + addmount)
 
 	ensureBox := func() error {
 		if sb != nil {
@@ -335,7 +337,11 @@ func (staticEngine) Run(ops []string) (ans []string, oracle []string) {
 				stRootGrow(sb, files, dirs)
 				return "ok"
 
-			case f[0] == "mount" && len(f) == 6:
+			case (f[0] == "mount" || f[0] == "addmount") && len(f) == 6:
+				add, prev := f[0] == "addmount", router
+				if add && (prev == nil || len(mounts) == 0) {
+					return "unsupported"
+				}
 				pending := gvars
 				gvars = nil
 				sym := viaSym
@@ -350,6 +356,15 @@ func (staticEngine) Run(ops []string) (ans []string, oracle []string) {
 				flags := atoi(f[2])
 				cfg = mountCfg{kind: f[1], enc: flags&1 != 0, strict: flags&4 != 0, prefix: mustUnhx(f[3]), exts: exts, target: mustUnhx(f[5])}
 				router = nil
+				if add { // router options are what the mount op said; routes that overlap are not modelled
+					cfg.enc, cfg.strict = mounts[0].enc, mounts[0].strict
+					for _, m := range mounts {
+						if !stMultiDisjoint(m, cfg) {
+							mounts = nil
+							return "unsupported"
+						}
+					}
+				}
 				var opts []func(*rux.Router)
 				if cfg.enc {
 					opts = append(opts, rux.UseEncodedPath)
@@ -360,7 +375,13 @@ func (staticEngine) Run(ops []string) (ans []string, oracle []string) {
 				if cfg.strict {
 					opts = append(opts, rux.StrictLastSlash)
 				}
+				if n := (flags >> 3) & 3; n > 0 {
+					opts = append(opts, rux.CachingWithNum(uint16(n)))
+				}
 				r := rux.New(opts...)
+				if add {
+					r = prev
+				}
 				dir := sb.root + cfg.target
 				stRootSecrets(sb)
 				if sym {
@@ -385,6 +406,11 @@ func (staticEngine) Run(ops []string) (ans []string, oracle []string) {
 					return "bad-op"
 				}
 				router = r
+				if add {
+					mounts = append(mounts, cfg)
+				} else {
+					mounts = []mountCfg{cfg}
+				}
 				return "ok"
 
 			case f[0] == "rawbad" && len(f) == 2:
@@ -411,6 +437,10 @@ func (staticEngine) Run(ops []string) (ans []string, oracle []string) {
 				reqPath := rq.URL.Path
 				if cfg.enc {
 					reqPath = rq.URL.EscapedPath()
+				}
+				cfg := cfg
+				if len(mounts) > 1 { // several mounts: the oracles judge against the one the path falls under
+					cfg = stMultiPick(mounts, reqPath)
 				}
 				fsNames = fsNames[:0]
 				w := httptest.NewRecorder()
@@ -609,6 +639,8 @@ func (staticEngine) Corpus() []Case {
 	}
 	// roots that are missing at registration, created later, (dangling) symbolic links
 	cases = append(cases, stRootCorpus(tree, attack)...)
+	// several mounts on one router with a small route cache
+	cases = append(cases, stMultiCorpus(tree)...)
 	return cases
 }
 
@@ -821,6 +853,9 @@ func genTarget(r *Rand, prefix string, files, dirs []string) string {
 func (staticEngine) Gen(r *Rand, tier string) Case {
 	if r.Chance(1, 12) { // streams root-*: the root is missing / appears later / is a (dangling) link
 		return stRootGen(r, tier)
+	}
+	if r.Chance(1, 12) { // stream multi: several mounts with roots of their own, a route cache of 1..3 entries
+		return stMultiGen(r, tier)
 	}
 	files, dirs := genTree(r)
 	ops := []string{treeOp(files, dirs)}
